@@ -122,6 +122,9 @@ def run(facts, tr, rep):
     # the Arc<AtomicU8> handed to the circuit is a clone of the one kept by the service
     # (discovered by type: the call that builds the circuit from an Arc<AtomicU8>, and the service field of that type)
     ctor = None
+    from ..inline import view_of
+    facts_s, tr_s = facts, tr
+    facts, tr = view_of(facts, "orig")          # constructors are judged on the program as written
     for b in facts.crates[CRATE].bodies:
         if b.kind != "fn" or b.def_.split("::")[-1] == "default":
             continue
@@ -160,6 +163,7 @@ def run(facts, tr, rep):
         rep.ob("C04.VIEWS", skey(b, "mirror-shared"), same, c.where(),
                "the atomic handed to the circuit is a clone of the Arc the service reads in state_sync()" if same else
                "the atomic handed to the circuit is not the one stored in the service")
+    facts, tr = facts_s, tr_s
     # metrics snapshot copies the state field
     met = facts.bodies.get(cb.circuit_adt + "::metrics")
     if met is not None:
